@@ -206,6 +206,27 @@ func (fl *c16Flow) judgeStartFlag(s kit.S, flag types.Object, n kit.Affine, okN 
 			}
 		}
 	}
+	// the flag was decided while scanning the leftover bytes, which were then moved
+	// to b[0:] in order (all of them, or the buffer is full and the scan never runs)
+	wholeMove := false
+	if mv := s.Get("q:mv"); mv != "" && s.Get("q:lounk") == "" && s.Get("q:mv2") == "" {
+		parts := strings.SplitN(mv, "|", 2)
+		if mlo, ok1 := fl.tab[parts[0]]; ok1 {
+			if mhi, ok2 := fl.tab[parts[1]]; ok2 {
+				k, c1 := fl.substEq(mlo, s).Const()
+				d, c2 := mhi.Sub(kit.AffLen(fl.rd.buf)).Const()
+				wholeMove = c1 && k == 0 && c2 && d == 0
+			}
+		}
+	}
+	if wholeMove {
+		if val == "true" && s.Get("q:nzev:"+kit.VarID(flag)) == "l" {
+			return c16V("ok", "%s was set on a non-zero leftover byte; the leftover bytes were then moved to b[0:]", flag.Name())
+		}
+		if val == "false" && s.Get("q:exhL") == "1" {
+			return c16V("ok", "%s is false after every leftover byte was seen to be zero; the leftover bytes were then moved to b[0:]", flag.Name())
+		}
+	}
 	switch val {
 	case "true":
 		pre := "a:z:b:"
@@ -491,4 +512,28 @@ func c16IsZeroDelimiter(f *kit.Func, e ast.Expr) bool {
 		}
 	}
 	return true
+}
+
+// noteFlagEvidence: when a bool local has just become true on a path that
+// holds a non-zero test of a leftover byte, remember that (the test itself is
+// forgotten when the scan moves on).  Any other assignment clears the note.
+func (fl *c16Flow) noteFlagEvidence(s kit.S, lhs ast.Expr) kit.S {
+	info := fl.rd.f.Info()
+	o, ok := kit.ObjOf(info, lhs).(*types.Var)
+	if !ok || o.IsField() {
+		return s
+	}
+	if b, ok := o.Type().Underlying().(*types.Basic); !ok || b.Kind() != types.Bool {
+		return s
+	}
+	key := "q:nzev:" + kit.VarID(o)
+	if s.Get("v:"+kit.VarID(o)) != "true" {
+		return s.Del(key)
+	}
+	for _, k := range s.Keys() {
+		if strings.HasPrefix(k, "a:z:l:") && s.Get(k) == "F" {
+			return s.Set(key, "l")
+		}
+	}
+	return s.Del(key)
 }
